@@ -29,19 +29,26 @@ LEVEL_TEXT = ('bounded symbolic model checking of the real coverage facility: ta
               'compared with the rule structure, std::map::at is shown never to miss, and the name stack is shown to be empty after every outcome')
 
 ASSUMPTIONS = [
-    'CBMC and the translated native build see std::map / std::vector as the array-backed stand-ins of lib/stubstd (fixed capacity; each query proves the '
-    'capacity is never exceeded; a missing key in map::at is reported to the harness and then thrown as a stand-in exception); the g++/ASan/UBSan build used '
-    'for translation validation (20 000 inputs per query) and for replays uses the genuine libstdc++ containers, so stand-ins + translation are compared '
-    'with the genuine library on every run',
-    'rule names are the compile-time constants demangle< Rule >() of clang 14; the stand-in map compares keys with the real std::string_view operator== '
-    '(length, then bytes); distinct rule types have distinct names (C11 names/injective)',
+    'CBMC and the translated native build see std::map / std::vector as the array-backed stand-ins of lib/stubstd (typed variants selected with '
+    '-DVSTUB_TYPED: slots are real arrays of { key, value } / string_view objects, fixed capacity; each query proves the capacity is never exceeded; a '
+    'missing key in map::at is reported to the harness and then thrown as a stand-in exception); the g++/ASan/UBSan build used for translation validation '
+    '(20 000 inputs per query) and for replays uses the GENUINE libstdc++ containers (Unit real_cxxflags), so stand-ins + translation are compared with the '
+    'genuine library on every run',
+    'rule names are the compile-time constants demangle< Rule >() of clang 14; the stand-in map takes two keys as equal if they are the same object with '
+    'the same length or equal by the real std::string_view operator== (length, then bytes: memcmp model of lib/models.h, unwound to the longest rule name); '
+    'measured: with the byte-buffer stand-ins of C11 no verdict in 900 s for a 7-rule grammar, typed stand-ins 26 s / 1.1 GB',
     'Control = vf::vcontrol (normal<> with the documented raise / raise_nested customisation points throwing a POD instead of building a parse_error: '
     'std::string / iostream formatting is outside the encodable code); print_coverage.hpp (iostream) is not covered',
+    'translation options of these units: clang -O1 with -mllvm -inline-threshold=1000000 (+ cold/hint thresholds) and -sink-common-insts=false, so that the '
+    'whole run is one function: exceptional and normal control flow then only join where the C++ code catches (with out-of-line callees the lowered '
+    'exception flag merges both at every function exit and the stack depth becomes a solver term: no verdict in 900 s); ll2c --inline-gep --typed-memset '
+    '--single-exit; like every translation they are validated per query against the g++ build (which uses none of these options)',
     'inputs of at most N positions, sub-rule behaviour tables over those positions; repetitions that make no progress and recursion deeper than the stated '
     'level (the real parse does not terminate / nests deeper) are excluded by assumption on the reference before the real run',
-    'grammars use seq, sor, opt, star, plus, at, not_at, must, try_catch_type/any_return_false, try_catch_type/any_raise_nested, one directly recursive rule; '
-    'raise< T > is NOT in the default set: coverage<>() over a grammar that reaches raise< T > throws std::out_of_range from std::map::at (no branch entry '
-    '(raise< T >, T), and no rule entry for T unless T occurs elsewhere) — a defect of the facility that is reported, opt-in with C08COV_RAISE=1',
+    'grammars use seq, sor, opt, star, plus, at, not_at, must, opt_must, try_catch_type/any_return_false, try_catch_type/any_raise_nested, one directly '
+    'recursive rule; raise< T > is NOT in the default set: coverage<>() over a grammar that reaches raise< T > throws std::out_of_range from std::map::at '
+    '(coverage_state::raise looks up the branch entry ( raise< T >, T ) that visit<> never creates because raise< T >::subs_t is empty, and the rule entry of T '
+    'if T does not occur elsewhere) — a defect of the facility that is reported, opt-in with C08COV_RAISE=1',
 ]
 
 S0, S1, S2 = 'sym<0>', 'sym<1>', 'sym<2>'
@@ -116,6 +123,16 @@ class Model:
             else:
                 node.kind = 'seq'
                 node.kids = [s.get('tao::pegtl::internal::must< %r >' % x, 'must', kids_e=[x]) for x in a]
+        elif n in ('if_must', 'opt_must'):
+            # internal::if_must< Default, Cond, Rules... >: subs_t = < Cond, internal::must< Rules... > >
+            node.kind = n
+            rules = a[1:]
+            if len(rules) == 1:
+                mu = s.get('tao::pegtl::internal::must< %r >' % rules[0], 'must', kids_e=rules)
+            else:
+                mu = s.get('tao::pegtl::internal::must< %s >' % ', '.join(map(repr, rules)), 'seq',
+                           kids=[s.get('tao::pegtl::internal::must< %r >' % x, 'must', kids_e=[x]) for x in rules])
+            node.kids = [s.build(a[0]), mu]
         elif n in TC:
             kind, what = TC[n]
             rules = a
@@ -276,6 +293,10 @@ class RefGen:
             # Control< Rule >::raise_nested for the sub-rule, after its frame was unwound; the new exception carries the start position
             return ('    out_t x = %s; if (%s) { cnt(C_RAISE_NESTED, %d, t); out_t o = { 2, p, %d, p, p }; b = o; } else b = x;'
                     % (call(kid, 'p'), exc_cond(node.what), kid.idx, 5000 + kid.rid))
+        if k in ('if_must', 'opt_must'):
+            dflt = 'sp_succ(p, x.far)' if k == 'opt_must' else 'sp_fail(p, x.far)'
+            return ('    out_t x = %s; if (x.r == 1) { out_t y = %s; if (y.far < x.far) y.far = x.far; b = y; } else if (x.r == 0) b = %s; else b = x;'
+                    % (call(node.kids[0], 'p'), call(node.kids[1], 'x.pos'), dflt))
         if k == 'raise':
             tgt = s.m.nodes.get(repr(node.target))
             return ('    %s{ out_t o = { 2, p, %d, p, p }; b = o; }' % (('cnt(C_RAISE, %d, t); ' % tgt.idx) if tgt else '', tgt.rid if tgt else -1))
@@ -397,31 +418,43 @@ def exp_rule(i, kind):
 GRAMMARS = [
     # seq / sor / opt nesting with backtracking; sym<0> occurs under two different parents (named<1> and the opt)
     ('backtrack', 'named< 0, sor< named< 1, %s, %s >, %s >, opt< %s > >' % (S0, S1, S2, S0),
-     {'reach': [R_FALSE, R_GLOBAL, R_FOREIGN2, R_TWICE]}),
-    # repetitions: star over a named rule, plus over a pack (internal::seq interposed)
-    ('star', 'named< 0, star< named< 1, %s > >, plus< %s, %s > >' % (S0, S1, S2),
+     {'stk': True, 'reach': [R_FALSE, R_GLOBAL, R_FOREIGN2, R_TWICE]}),
+    # repetitions: star over a named rule; plus over a pack (internal::seq interposed)
+    ('star', 'named< 0, star< named< 1, %s > >, %s >' % (S0, S1),
      {'reach': [R_FALSE, R_FOREIGN2, R_TWICE, ('%s >= 3' % exp_rule(2, 'C_START'), 'the starred rule was started three times')]}),
+    ('plus', 'named< 0, plus< %s, %s >, %s >' % (S0, S1, S2),
+     {'reach': [R_FALSE, R_FOREIGN2, R_TWICE, ('%s >= 2' % exp_rule(2, 'C_SUCCESS'), 'the repeated sequence matched twice')]}),
     # predicates: hooks still run inside at<> / not_at<>; named<1> occurs inside at<> and directly under named<0>
     ('lookahead', 'named< 0, at< named< 1, %s > >, not_at< %s >, named< 1, %s >, %s >' % (S0, S1, S0, S2),
      {'reach': [R_FALSE, R_FOREIGN2, R_TWICE]}),
     # must<> over a pack: internal::must< R > frames, raise counted for the sub-rule under the must frame
     ('must', 'named< 0, %s, must< %s, named< 1, %s > > >' % (S0, S1, S2),
-     {'reach': [R_FALSE, R_GLOBAL, R_RAISE, R_FOREIGN2]}),
+     {'stk': True, 'reach': [R_FALSE, R_GLOBAL, R_RAISE, R_FOREIGN2]}),
     # global failure caught inside the run: frames unwound, parsing goes on with the next alternative
     ('trycatch', 'named< 1, sor< try_catch_type_return_false< verif_exc, named< 0, %s, must< %s > > >, %s >, %s >' % (S0, S1, S2, S0),
-     {'reach': [R_FALSE, R_GLOBAL, R_RAISE, R_FOREIGN2, R_TWICE, R_CONT(2)]}),
+     {'stk': True, 'reach': [R_FALSE, R_GLOBAL, R_RAISE, R_FOREIGN2, R_TWICE, R_CONT(2)]}),
     # raise_nested: a foreign exception is converted inside the run, the converted one is caught further out
     ('nested', 'named< 0, sor< try_catch_any_return_false< try_catch_type_raise_nested< foreign_exc, named< 1, %s, %s > > >, %s > >' % (S0, S1, S2),
-     {'reach': [R_FALSE, R_NESTED, R_CONT(3), R_GLOBAL]}),
+     {'stk': True, 'reach': [R_FALSE, R_NESTED, R_CONT(3), R_GLOBAL]}),
     # bool action: a veto turns the success hook into the failure hook; the action may also throw
     ('veto', 'named< 0, sor< named< 1, %s >, %s >, %s >' % (S0, S1, S2),
      {'action': 'bool', 'reach': [R_FALSE, R_FOREIGN2, ('e.r == 1 && sp_veto(101, sp_start) == 0 && T_res[0][sp_start] == 1', 'a rule matched, its action vetoed, the run still succeeded')]}),
     # void action that throws, caught inside the run
     ('throwact', 'named< 0, sor< try_catch_any_return_false< named< 1, %s > >, %s >, %s >' % (S0, S1, S2),
-     {'action': 'void', 'reach': [R_FALSE, R_FOREIGN2, R_CONT(1), ('e.r == 1 && sp_veto(101, sp_start) == 2 && T_res[0][sp_start] == 1', 'the action of a rule that matched threw, the exception was caught inside the run')]}),
+     {'stk': True, 'action': 'void', 'reach': [R_FALSE, R_FOREIGN2, R_CONT(1), ('e.r == 1 && sp_veto(101, sp_start) == 2 && T_res[0][sp_start] == 1', 'the action of a rule that matched threw, the exception was caught inside the run')]}),
+    # opt-in (C08COV_RAISE=1): demonstrates the raise<> defect of the facility, see ASSUMPTIONS
+    ('raise', 'named< 0, sor< %s, raise< %s > >, %s >' % (S0, S1, S1),
+     {'raise_only': True, 'reach': [R_GLOBAL]}),
+    # thorough tier only
+    ('optmust', 'named< 0, opt_must< %s, %s, named< 1, %s > >, %s >' % (S0, S1, S2, S2),
+     {'thorough_only': True, 'reach': [R_FALSE, R_GLOBAL, R_RAISE, R_FOREIGN2]}),
+    ('combo', 'named< 0, star< sor< named< 1, %s, %s >, %s > >, opt< named< 1, %s, %s > > >' % (S0, S1, S2, S0, S1),
+     {'thorough_only': True, 'N': 3, 'reach': [R_FALSE, R_FOREIGN2, R_TWICE]}),
+    ('nested_act', 'named< 0, sor< try_catch_type_return_false< verif_exc, try_catch_any_raise_nested< named< 1, %s >, %s > >, %s > >' % (S0, S1, S2),
+     {'thorough_only': True, 'action': 'bool', 'reach': [R_FALSE, R_NESTED, R_CONT(2)]}),
     # directly recursive named rule
     ('recursive', 'named< 0, R, %s >' % S2,
-     {'defs': {'R': (150, 'sor< seq< sym<0>, R >, sym<1> >')}, 'maxrec': 3, 'N': 2, 'K': 3,
+     {'defs': {'R': (150, 'sor< seq< sym<0>, R >, sym<1> >')}, 'maxrec': 3, 'N': 2, 'K': 3, 'stk': True,
       'reach': [R_FALSE, R_FOREIGN2, R_TWICE, ('%s >= 3' % exp_rule(1, 'C_START'), 'the recursive rule was nested three levels deep')]}),
 ]
 
@@ -433,14 +466,19 @@ def plan(ctx):
     for (gname, gtext, opts) in GRAMMARS:
         if only and gname not in only.split(','):
             continue
+        if ctx.quick() and opts.get('thorough_only'):
+            continue
+        if opts.get('raise_only') and not os.environ.get('C08COV_RAISE'):
+            continue
         o = dict(opts)
         if not ctx.quick():
             o.update(opts.get('thorough', {}))
         m, wrap, htext, N = texts(gtext, o, ctx.quick())
         NR = len(m.order)
         maxrec = o.get('maxrec', 3)
-        cap = max(NR, m.depth(maxrec) + 1, 2)
-        unit = ctx.unit('c08cov_' + gname, text=wrap, cxxflags=['-I', stub, '-DVSTUB_CAP=%d' % cap, '-DVSTUB_TYPED', '-mllvm', '-inline-threshold=1000000', '-mllvm', '-sink-common-insts=false'], ll2c=['--inline-gep', '--typed-memset'], real_cxxflags=[])
+        cap = max(NR, m.depth(maxrec + 1 if m.defs else maxrec) + 1, 2)   # name stack: deepest nesting incl. the recursion level that the reference excludes (symex still enters it)
+        capb = max([len({k.idx for k in n.kids}) for n in m.order] + [1])        # branch maps: distinct direct sub-rules of one rule
+        unit = ctx.unit('c08cov_' + gname, text=wrap, cxxflags=['-I', stub, '-DVSTUB_CAP=%d' % cap, '-DVSTUB_CAP_SMALL=%d' % capb, '-DVSTUB_SMALL_BYTES=48', '-DVSTUB_TYPED', '-mllvm', '-inline-threshold=1000000', '-mllvm', '-sink-common-insts=false', '-mllvm', '-inline-cold-callsite-threshold=1000000', '-mllvm', '-inlinecold-threshold=1000000', '-mllvm', '-inlinehint-threshold=1000000'], ll2c=['--inline-gep', '--typed-memset', '--single-exit'], real_cxxflags=[])
         h = ctx.write('h_%s.c' % gname, htext)
         us = ['cov_setup.%d:%d' % (i, max(NR * NR * 6, 13) + 1) for i in range(6)]
         us += ['cov_clear_out.%d:%d' % (i, NR * NR * 7 + 1) for i in range(3)]
@@ -456,16 +494,17 @@ def plan(ctx):
             for f in b['defined']:
                 if 'star_partial' in f or 'internal4plus' in f:
                     us += ['%s.%d:%d' % (f, i, N + 3) for i in range(2)]     # repetition over symbolic sub-rules: at most N + 1 productive iterations
-                if m.defs and any(f.startswith('_ZN3tao5pegtl5matchI%d%sL' % (len(d), d)) for d in m.defs):
-                    us.append('%s:%d' % (f, maxrec + 1))
+                if m.defs and not f.startswith('w_') and 'match' in f and 'unwind_guard' not in f:
+                    us.append('%s:%d' % (f, maxrec + 1))      # whatever function clang left out of line in the recursive cycle: recursion bounded by the level bound
         except vf.Inconclusive:
             pass          # reported by the query itself
         unwind = max(N + 3, cap + 2, NR + 2, 8)
         ctx.write('us_%s.txt' % gname, '%d\n%s\n' % (unwind, ','.join(us)))      # for manual runs (VERIF_KEEP=1)
-        for mode in ('cov', 'stk'):
+        modes = ('cov', 'stk') if (not ctx.quick() or o.get('stk', False)) else ('cov',)
+        for mode in modes:
             qs.append(vf.Query('%s/%s' % (gname, mode), unit, h, unwind=unwind, mem_gb=o.get('mem_gb', 4), unwindset=us,
                                cbmc_defines={'VF_SPLIT': 1, 'V_' + mode: 1},
-                               bounds={'N': N, 'K': o.get('K', 3), 'grammar': gtext, 'rule_types': NR, 'container_capacity': cap,
+                               bounds={'N': N, 'K': o.get('K', 3), 'grammar': gtext, 'rule_types': NR, 'container_capacity': cap, 'branch_map_capacity': capb,
                                        'action': {'bool': 'vf::act_bool (veto / throw)', 'void': 'vf::act_void (throw)'}.get(o.get('action'), 'nothing'),
                                        'mode': 'coverage<>() itself' if mode == 'cov' else 'coverage_state + state_control<>::type driven through parse<> (name stack observable)'},
                                note='counters of the real coverage_result: balanced, equal to the reference event counts per rule and per branch; map structure == rule structure'
